@@ -14,7 +14,7 @@ LEVEL = "model_checking"
 RULE = ("all ordered lists of <=2 (thorough: <=3) distinct strings over a 17-string alphabet and of integers over {-2,-1,0,1,2,10}, x null "
         "member x default (none / first / non-member) x inline vs referenced x Enum classes vs literal_enums; consts over 10 values x "
         "required x typed/untyped; a const as a member of a oneOf/anyOf with each of 8 partner kinds, both orders; inputs: every listed value, null, and a probe set of values not listed (case variants, trimmed, "
-        "suffixed, other type); non-trivial = the holder model was generated and every listed value exercised; value lists that repeat a value; enums / consts used by an operation: as JSON response and (string enums / consts) as text/plain and text/html response (alone / next to 204, empty 404, default) and as query / header parameter, both enum styles, inline and by reference: every listed value is accepted / transmitted as written, unlisted replies are refused")
+        "suffixed, other type); non-trivial = the holder model was generated and every listed value exercised; value lists that repeat a value; one inline enum schema object reached by three operations (path-item parameter, reusable parameter / response / request body), with and without null: every user behaves like the first; enums / consts used by an operation: as JSON response and (string enums / consts) as text/plain and text/html response (alone / next to 204, empty 404, default) and as query / header parameter, both enum styles, inline and by reference: every listed value is accepted / transmitted as written, unlisted replies are refused")
 FLOOR = 0.4
 ASSUMPTIONS = ["the pinned uncaught ValueError('Duplicate key ...') counts as 'reported' for C14 (it is C06's business as a crash)"]
 
@@ -111,6 +111,7 @@ def cases(tier):
                 for ref in (False, True):
                     yield {"labels": [f"values={values!r}", "repeated-value", f"style={style}"] + (["ref"] if ref else []),
                            "payload": {"mode": "enum", "type": typ, "values": list(values), "null": False, "style": style, "ref": ref, "default": "none", "dv": "none"}}
+    yield from _shared_cases()
     # two enums that derive the same class name (a component and an inline enum): reported, or both keep exactly their values
     clash_lists = [["OPEN", "CLOSED"], ["open", "closed"], ["Open", "closed"], ["a", "b"], ["c", "d"], ["a", "b", "c"], ["b", "a"]]
     for x, y in itertools.permutations(clash_lists, 2):
@@ -488,6 +489,100 @@ def _run_enum_param(p):
     return {"violations": uniq, "outcome": "ok" if not uniq else "viol:" + ",".join(sorted({v['oracle'] for v in uniq})), "nontrivial": True, "steps": 2 * len(p["values"])}
 
 
+def _shared_cases():
+    """ONE inline enum schema object that several operations reach (path-item parameter, reusable parameter / response / request body):
+    every user gets exactly the listed values (and null iff listed), not only the first one."""
+    for typ, values in (("string", ["a", "b"]), ("integer", [0, 3])):
+        for null in (False, True):
+            for style in ("enum", "literal"):
+                for ctx in ("pathitem-param", "component-param", "component-response", "component-body"):
+                    yield {"labels": [f"shared-enum={ctx}", f"type={typ}"] + (["null"] if null else []) + [f"style={style}"],
+                           "payload": {"mode": "enum-shared", "type": typ, "values": values, "null": null, "style": style, "ctx": ctx}}
+
+
+def _run_enum_shared(p):
+    import httpx
+    from specmc import wire
+    sch = {"type": [p["type"], "null"] if p["null"] else p["type"], "enum": list(p["values"]) + ([None] if p["null"] else [])}
+    methods = ("get", "post", "put")
+    ok = {"200": {"description": "ok"}}
+    comps = {}
+    item = {}
+    if p["ctx"] == "pathitem-param":
+        item["parameters"] = [{"name": "p", "in": "query", "required": True, "schema": sch}]
+        for m in methods:
+            item[m] = {"operationId": f"{m}E", "responses": ok}
+    elif p["ctx"] == "component-param":
+        comps["parameters"] = {"P": {"name": "p", "in": "query", "required": True, "schema": sch}}
+        for m in methods:
+            item[m] = {"operationId": f"{m}E", "parameters": [{"$ref": "#/components/parameters/P"}], "responses": ok}
+    elif p["ctx"] == "component-response":
+        comps["responses"] = {"R": {"description": "d", "content": {"application/json": {"schema": sch}}}}
+        for m in methods:
+            item[m] = {"operationId": f"{m}E", "responses": {"200": {"$ref": "#/components/responses/R"}}}
+    else:
+        comps["requestBodies"] = {"B": {"required": True, "content": {"application/json": {"schema": sch}}}}
+        for m in methods:
+            item[m] = {"operationId": f"{m}E", "requestBody": {"$ref": "#/components/requestBodies/B"}, "responses": ok}
+    doc = gen.base_doc(None, paths={"/e": item}, components=comps or None) if comps else gen.base_doc(None, paths={"/e": item})
+    res = gen.generate(doc, literal_enums=p["style"] == "literal")
+    if res.crash:
+        return {"skipped_crash": True, "outcome": f"crash:{res.crash['type']}@{res.crash['where']}", "nontrivial": False}
+    if res.rejected or len(res.endpoints) < len(methods):
+        return {"outcome": "no-endpoint", "nontrivial": False}
+    key = f"shared/{p['ctx']}/{p['type']}/{p['style']}" + ("/null" if p["null"] else "")
+    viol, behaviours = [], {}
+    values = list(p["values"]) + ([None] if p["null"] else [])
+    probes = values + ([None] if not p["null"] else []) + (["zz-not-listed"] if p["type"] == "string" else [77])
+    with Sandbox(res.pkg_tree()) as sb:
+        for ep in res.endpoints:
+            try:
+                mod = wire.endpoint_module(sb, ep)
+            except Exception as exc:  # noqa: BLE001
+                behaviours[ep["method"]] = f"import-fails:{type(exc).__name__}"
+                continue
+            beh = []
+            if p["ctx"] == "component-response":
+                for v in probes:
+                    cap = wire.Capture(lambda request, v=v: httpx.Response(200, content=json.dumps(v).encode(), headers={"content-type": "application/json"}))
+                    r = wire.call(mod, "sync_detailed", lambda: wire.make_client(sb, cap), cap, {})      # noqa: B023
+                    if r["ok"]:
+                        parsed = r["value"].parsed
+                        beh.append([repr(v), "ok", repr(parsed.value if isinstance(parsed, enum.Enum) else parsed)])
+                    else:
+                        beh.append([repr(v), "raises"])
+            else:
+                argname = ep["query_params"][0]["py"] if "param" in p["ctx"] else "body"
+                ann = pyval.hints(mod.sync_detailed).get(argname)
+                beh.append(["admits-None", type(None) in getattr(ann, "__args__", ()) or ann is type(None)])
+                for v in probes:
+                    try:
+                        arg = pyval.pythonize(ann, v)
+                    except pyval.NoFit:
+                        beh.append([repr(v), "does-not-fit-annotation"])
+                        continue
+                    cap = wire.Capture(lambda request: httpx.Response(200))
+                    r = wire.call(mod, "sync_detailed", lambda: wire.make_client(sb, cap), cap, {argname: arg})      # noqa: B023
+                    if r["ok"] and r["requests"]:
+                        q = r["requests"][0]
+                        beh.append([repr(v), "sent", [x for k_, x in q["query"] if k_ == "p"] if "param" in p["ctx"] else q["content"].decode("latin-1")])
+                    else:
+                        beh.append([repr(v), "raises"])
+            behaviours[ep["method"].lower()] = beh
+    first = behaviours.get("get")
+    for m, beh in behaviours.items():
+        if beh != first:
+            viol.append({"oracle": "shared-enum-users-differ", "site": p["ctx"], "key": key,
+                         "detail": f"the enum {values!r} is one schema object used by {sorted(behaviours)}: the first user behaves as {json.dumps(first)[:300]}, {m} as {json.dumps(beh)[:300]}"})
+            break
+    # the first user itself: listed values are accepted
+    if isinstance(first, list):
+        for row in first:
+            if row[0] in [repr(v) for v in values] and row[1] in ("raises", "does-not-fit-annotation"):
+                viol.append({"oracle": "listed-rejected", "site": p["ctx"], "key": f"{key}/{row[0]}", "detail": f"listed value {row[0]} is refused by the first user: {row}"})
+    return {"violations": viol, "outcome": "ok" if not viol else "viol:" + ",".join(sorted({v['oracle'] for v in viol})), "nontrivial": True, "steps": 3 * len(probes)}
+
+
 def _run_clash(p):
     from checks.c02 import find_class
     x, y = p["x"], p["y"]
@@ -541,6 +636,8 @@ def run_case(p):
         return _run_clash(p)
     if p["mode"] == "const-union":
         return _run_const_union(p)
+    if p["mode"] == "enum-shared":
+        return _run_enum_shared(p)
     if p["mode"] == "enum-response":
         return _run_enum_response(p)
     if p["mode"] == "enum-param":
